@@ -251,6 +251,21 @@ def compare_live(t, mt, case, out, phase):
                 sorted(P(c) for c in T.children(x)) != sorted(path + (i,) for i in range(len(ref.kids[path]))):
             bad('children() after the caller emptied an earlier result', len(ref.kids[path]), len(T.children(x)))
             break
+    # ... also the (empty) lists handed out for tokens: a caller that collects nodes in one of them must not
+    # change what is reported for any other node
+    toks_ = [x for x in by_path.values() if not x.children]
+    if toks_:
+        got0 = T.children(toks_[0])
+        if got0 == []:
+            got0.append(toks_[0])
+            for x in toks_:
+                if T.children(x) != []:
+                    bad('children(token) after the caller changed an earlier result', [], [P(c) for c in T.children(x)])
+                    break
+            try:
+                del got0[:]
+            except Exception:
+                pass
     # export numbering (mutates num of constituents only)
     from trees import treeoutput
     treeoutput.compute_export_numbering(t)
